@@ -70,7 +70,10 @@ func (parkedReader) HandleRead(ctx netty.InboundContext, message netty.Message) 
 func runChanFreeCase(c *ChanFreeCase) *ChanFreeResult {
 	res := &ChanFreeResult{ID: c.ID, Fails: []Fail{}, Actions: map[string]int{}}
 	failed := map[string]bool{}
+	var fmu sync.Mutex
 	fail := func(prop, key, msg string) {
+		fmu.Lock()
+		defer fmu.Unlock()
 		if !failed[prop+key] {
 			failed[prop+key] = true
 			res.Fails = append(res.Fails, Fail{Prop: prop, Key: key, Msg: msg})
@@ -101,6 +104,16 @@ func runChanFreeCase(c *ChanFreeCase) *ChanFreeResult {
 		wg.Add(1)
 		go func(wr int) {
 			defer wg.Done()
+			defer func() {
+				if r := recover(); r != nil {
+					// a low-level write call panicked into its caller
+					msg := fmt.Sprintf("writer %d: a write call on an open channel panicked into the caller: %v", wr, r)
+					fail("C01", "stress-panic", msg)
+					fail("C02", "stress-panic", msg)
+					fail("C09", "stress-panic", msg)
+					fail("C10", "stress-panic", msg)
+				}
+			}()
 			rnd := rand.New(rand.NewSource(c.Seed + int64(wr)*7919))
 			<-start
 			for seq := 0; seq < c.Ops; seq++ {
